@@ -6,7 +6,7 @@ import ast
 from vlib.anchoring import Site, Taint, find_sites
 from vlib.core import AnalysisError, Report
 from vlib.norm import Expander
-from vlib.srcindex import SourceIndex, attr_chain, unparse
+from vlib.srcindex import SourceIndex, attr_chain, const_str, unparse
 
 EXPLANATION = (
 	'Decides the mechanism the property names: no decision in the pipeline may depend on a prefix/suffix/substring/length relation of user-chosen identifiers. '
@@ -31,7 +31,6 @@ NOT_IDENT_BASES = {'full_path', '_full_path'}
 
 # frozen triage: unanchored sinks on name-carrying values that are correct as written, one reason each
 EXEMPT = {
-	'rogw/tranp/syntax/node/definition/accessible.py:to_accessor': "Python's own _/__ naming convention is spelling-defined; the property's renaming excludes it (fresh names keep the underscore class)",
 	'rogw/tranp/dsn/dsn.py:DSN.relativefy:split:origin': 'guarded by the anchored startswith(f"{starts}{delimiter}") test on the line before; every caller passes grammar-tag paths rooted at file_input (Entrypoint.whole_by, EntryPath.relativefy, ClassDomainNaming.__namespace)',
 	'rogw/tranp/semantics/finder.py:SymbolFinder.__allow_scope:lencmp:node.scope': 'scope.dsn is by construction (SymbolFinder.__make_scopes) a dotted prefix of node.scope, so the length comparison is equivalent to equality of the two scopes',
 	'rogw/tranp/implements/cpp/transpiler/py2cpp.py:Py2Cpp.proc_move_assign_single:prefix:node.value.calls.tokens': 'compares with the tranp-reserved decorator path Embed.static; members of the reserved Embed namespace are not user identifiers',
@@ -137,7 +136,219 @@ def run(rep: Report, tier: str) -> None:
 					continue
 				r.violate(s.key, where, f'[{xk}] {s.kind} test `{s.text}` on a name-carrying string ({", ".join(sorted(s.labels))}) is not anchored on a separator: its outcome changes under a consistent renaming of user identifiers (a name that merely starts/ends with or contains the compared text matches)', s.text)
 	for k in sorted(set(EXEMPT) - used):
-		if tier == 'thorough' or not k.startswith('rogw/tranp/syntax/node/definition/accessible.py'):
-			r.note(f'triage entry matches no site any more: {k}')
+		r.note(f'triage entry matches no site any more: {k}')
+	rule_accessor(rep, idx)
+	rule_templates(rep)
 	rep.extra_coverage['tainted_sites'] = len(tainted_sites)
 	rep.extra_coverage['tainted_by_kind'] = {k: sum(1 for s in tainted_sites if s.kind == k) for k in sorted({s.kind for s in tainted_sites})}
+
+
+# ---- visibility from spelling: the one place where the spelling of a name is *meant* to decide, and exactly as Python defines it -----------------
+
+SAMPLES = {
+	'__init__': 'public', '__x__': 'public',
+	'__hits': 'private', '__cache__hits': 'private', '__do__bump': 'private', '__a_': 'private',
+	'_x': 'protected', '_x__': 'protected', '_': 'protected',
+	'x': 'public', 'x__': 'public', 'x__y__': 'public', 'a_b': 'public',
+}
+
+
+def _eval_str_atom(a: ast.AST, name_param: str, value: str, consts: dict[str, ast.AST]):
+	"""truth of a recognised predicate over the name for one sample spelling (constants folded with CPython's own str/re), or None"""
+	import re as _re
+	if isinstance(a, ast.BoolOp):
+		vs = [_eval_str_atom(v, name_param, value, consts) for v in a.values]
+		if any(v is None for v in vs):
+			return None
+		return all(vs) if isinstance(a.op, ast.And) else any(vs)
+	if isinstance(a, ast.UnaryOp) and isinstance(a.op, ast.Not):
+		v = _eval_str_atom(a.operand, name_param, value, consts)
+		return None if v is None else not v
+	if isinstance(a, ast.Call) and isinstance(a.func, ast.Attribute) and isinstance(a.func.value, ast.Name) and a.func.value.id == name_param and len(a.args) == 1:
+		arg = a.args[0]
+		cv = const_str(arg)
+		if cv is None and isinstance(arg, ast.Tuple) and all(const_str(e) is not None for e in arg.elts):
+			cv = tuple(const_str(e) for e in arg.elts)
+		if cv is not None and a.func.attr in ('startswith', 'endswith'):
+			return getattr(value, a.func.attr)(cv)
+	if isinstance(a, ast.Compare) and len(a.ops) == 1 and isinstance(a.ops[0], ast.In) and const_str(a.left) is not None and unparse(a.comparators[0]) == name_param:
+		return const_str(a.left) in value
+	if isinstance(a, ast.Call) and isinstance(a.func, ast.Attribute) and a.func.attr in ('match', 'fullmatch', 'search'):
+		pat = None
+		if attr_chain(a.func) in ('re.match', 're.fullmatch', 're.search') and len(a.args) == 2 and unparse(a.args[1]) == name_param:
+			pat = const_str(a.args[0])
+		elif isinstance(a.func.value, ast.Name) and a.func.value.id in consts and len(a.args) == 1 and unparse(a.args[0]) == name_param:
+			c = consts[a.func.value.id]
+			if isinstance(c, ast.Call) and attr_chain(c.func) == 're.compile' and c.args:
+				pat = const_str(c.args[0])
+		if pat is not None:
+			try:
+				return getattr(_re, a.func.attr)(pat, value) is not None
+			except _re.error:
+				return None
+	if isinstance(a, ast.Compare) and len(a.ops) == 1 and isinstance(a.ops[0], (ast.IsNot, ast.Is)) and unparse(a.comparators[0]) == 'None':
+		inner = _eval_str_atom(a.left, name_param, value, consts)
+		if inner is None:
+			return None
+		return inner if isinstance(a.ops[0], ast.IsNot) else not inner
+	return None
+
+
+def rule_accessor(rep: Report, idx: SourceIndex) -> None:
+	from vlib.match import X, atoms, nodes
+	r = rep.rule('C08/visibility-follows-python-convention', 'to_accessor classifies a member name exactly as Python does (dunder -> public, other __name -> private, _name -> protected, else public), decided per sample spelling from the conditions guarding each return', floor=10)
+	m = idx.mod('rogw/tranp/syntax/node/definition/accessible.py')
+	rep.consulted(m.relpath)
+	f = m.functions.get('to_accessor')
+	if f is None:
+		raise AnalysisError('accessible.py:to_accessor vanished')
+	fx = X(f)
+	pname = f.params()[0]
+	consts = {n.targets[0].id: n.value for n in m.tree.body if isinstance(n, ast.Assign) and len(n.targets) == 1 and isinstance(n.targets[0], ast.Name)}
+	rets = [(n, const_str(n.value)) for n in nodes(fx, ast.Return)]
+	rets.sort(key=lambda t: (t[0].lineno, t[0].col_offset))
+	if not rets or any(v is None for _, v in rets):
+		r.skip('shape', f.where, 'to_accessor no longer returns constant access modifiers')
+		r.floor = 1
+		return
+	for sample, want in SAMPLES.items():
+		got = None
+		undecidable = False
+		for n, v in rets:
+			truth = []
+			for a, pol in atoms(fx, n):
+				t = _eval_str_atom(a, pname, sample, consts)
+				if t is None:
+					undecidable = True
+					break
+				truth.append(t == pol)
+			if undecidable:
+				break
+			if all(truth):
+				got = v
+				break
+		if undecidable or got is None:
+			r.skip(f'name:{sample}', f.where, 'a condition of to_accessor is not a recognised predicate over the name')
+			continue
+		r.check(got == want, f'name:{sample}', f.where, f'to_accessor classifies `{sample}` as {got}; in Python it is {want} (only names that both start and end with two underscores are special): a visibility-preserving renaming of the member would move it between the C++ access sections', sample)
+
+
+# ---- templates: textual substitution of a name inside rendered code must respect identifier boundaries --------------------------------------
+
+TEMPLATE_EXEMPT = {
+	'statement/import:import_dir': 'include-directory prefix of a module *path* (configured include_dirs, entries end with "/"); module file names are outside the renaming of the property, same triage as Py2Cpp.on_import',
+}
+
+
+TEMPLATE_PREFIX_EXEMPT = {
+	"flow/if/if:condition.startswith('std::is_same_v')": 'the compared text contains `::`; no Python identifier renders to C++ text beginning with std::is_same_v (emitted only by the isinstance/type-test templates)',
+	"flow/if/else_if:condition.startswith('std::is_same_v')": 'same as flow/if/if',
+}
+
+
+def _flank_ok(parts: list, i: int) -> bool:
+	"""the variable part i of a concatenated pattern is delimited on both sides by constant text that cannot be part of an identifier (or by a regexp word boundary)"""
+	def edge(txt: str, side: str) -> bool:
+		if not txt:
+			return False
+		if side == 'left':
+			return txt.endswith('\\b') or not (txt[-1].isalnum() or txt[-1] == '_')
+		return txt.startswith('\\b') or not (txt[0].isalnum() or txt[0] == '_')
+	left = parts[i - 1] if i > 0 else None
+	right = parts[i + 1] if i + 1 < len(parts) else None
+	return bool(left is not None and left[0] == 'const' and edge(left[1], 'left') and right is not None and right[0] == 'const' and edge(right[1], 'right'))
+
+
+def rule_templates(rep: Report) -> None:
+	from vlib.templates import TemplateModel
+	r = rep.rule('C08/template-name-substitution-anchored', 'a template that rewrites rendered code by replacing the text of a variable (replace filter / reg_replace) delimits the variable on both sides by non-identifier text or a word boundary; otherwise listed with a reason', floor=3)
+	tm = TemplateModel()
+	n = tm.nodes
+
+	def parts_of(e) -> list:
+		if isinstance(e, n.Const) and isinstance(e.value, str):
+			return [('const', e.value)]
+		if isinstance(e, n.Concat):
+			out = []
+			for x in e.nodes:
+				out.extend(parts_of(x))
+			return out
+		if isinstance(e, n.Add):
+			return parts_of(e.left) + parts_of(e.right)
+		return [('var', tm._src(e))]
+
+	sites = 0
+	for name in sorted(tm.asts):
+		tree = tm.flat(name)
+		cands = []
+		for f in tree.find_all(n.Filter):
+			if f.name == 'replace' and f.args:
+				cands.append((f, f.args[0], 'replace'))
+		for c_ in tree.find_all(n.Call):
+			if isinstance(c_.node, n.Name) and c_.node.name == 'reg_replace' and c_.args:
+				cands.append((c_, c_.args[0], 'reg_replace'))
+		for node, pat, kind in cands:
+			parts = parts_of(pat)
+			merged: list = []
+			for k_, v_ in parts:
+				if k_ == 'const' and merged and merged[-1][0] == 'const':
+					merged[-1] = ('const', merged[-1][1] + v_)
+				else:
+					merged.append((k_, v_))
+			vars_ = [(i, v_) for i, (k_, v_) in enumerate(merged) if k_ == 'var']
+			if not vars_:
+				continue  # constant text: not name-relative
+			rep.consulted(tm.relpath(name))
+			for i, v_ in vars_:
+				sites += 1
+				key = f'{name}:{v_}'
+				where = (tm.relpath(name), getattr(node, 'lineno', 1))
+				if _flank_ok(merged, i):
+					r.ok(key, where)
+				elif key in TEMPLATE_EXEMPT:
+					r.ok(key, where, message=f'exempt: {TEMPLATE_EXEMPT[key]}')
+				else:
+					shown = ' ~ '.join(repr(x[1]) if x[0] == 'const' else x[1] for x in merged)
+					r.violate(key, where, f'{kind}({shown}, ...) rewrites rendered code wherever the TEXT of `{v_}` occurs: an identifier that merely contains it is rewritten too (`lambda e: e.value` -> `a.valua`), so a consistent renaming of the variable changes the output beyond the renaming', shown)
+	# prefix / suffix tests on rendered text inside templates: the compared constant must end (prefix) / begin (suffix) with a non-identifier character
+	rp = rep.rule('C08/template-prefix-tests-anchored', 'x.startswith(c) / x.endswith(c) in a template compares with a constant that is delimited at its open edge by a non-identifier character (`Iterator<`, ` self`), so a user identifier that merely starts/ends with the same letters does not match; otherwise listed with a reason', floor=15)
+	for name in sorted(tm.asts):
+		for c_ in tm.asts[name].find_all(n.Call):
+			if not (isinstance(c_.node, n.Getattr) and c_.node.attr in ('startswith', 'endswith') and len(c_.args) == 1):
+				continue
+			a = c_.args[0]
+			subject = tm._src(c_.node.node)
+			key = f'{name}:{subject}.{c_.node.attr}({tm._src(a)})'
+			where = (tm.relpath(name), getattr(c_, 'lineno', 1))
+			if not (isinstance(a, n.Const) and isinstance(a.value, str) and a.value):
+				rp.skip(key, where, 'compared text is not a constant')
+				continue
+			ch = a.value[-1] if c_.node.attr == 'startswith' else a.value[0]
+			if not (ch.isalnum() or ch == '_'):
+				rp.ok(key, where)
+			elif key in TEMPLATE_PREFIX_EXEMPT:
+				rp.ok(key, where, message=f'exempt: {TEMPLATE_PREFIX_EXEMPT[key]}')
+			else:
+				rp.violate(key, where, f'`{subject}.{c_.node.attr}({a.value!r})` also matches a user identifier that merely {"starts" if c_.node.attr == "startswith" else "ends"} with `{a.value}` (a class named {a.value}Box): renaming such a class changes which template branch renders it', a.value)
+	# substring searches on a name: DecoratorHelper.any_args(x) is `join_args.find(x) != -1` (view/helper/decorator.py); with a variable argument it
+	# matches every decorator argument that merely CONTAINS the text
+	dh = SourceIndex().mod('rogw/tranp/view/helper/decorator.py')
+	rep.consulted(dh.relpath)
+	any_args = dh.cls('DecoratorHelper').method('any_args') if 'DecoratorHelper' in dh.classes else None
+	is_substring = any_args is not None and any(isinstance(x, ast.Call) and isinstance(x.func, ast.Attribute) and x.func.attr in ('find', 'count', 'index') for x in ast.walk(any_args.node)) or (any_args is not None and any(isinstance(x, ast.Compare) and isinstance(x.ops[0], ast.In) for x in ast.walk(any_args.node)))
+	rs = rep.rule('C08/template-substring-queries', 'no template asks a substring question about a rendered name: DecoratorHelper.any_args (a substring search over the joined decorator arguments) is called with constants only, or the site is listed', floor=1)
+	n_calls = 0
+	for name in sorted(tm.asts):
+		for c_ in tm.asts[name].find_all(n.Call):
+			if isinstance(c_.node, n.Getattr) and c_.node.attr == 'any_args' and c_.args:
+				n_calls += 1
+				a = c_.args[0]
+				key = f'{name}:{tm._src(c_.node.node)}.any_args({tm._src(a)})'
+				where = (tm.relpath(name), getattr(c_, 'lineno', 1))
+				if isinstance(a, n.Const) or not is_substring:
+					rs.ok(key, where)
+				else:
+					rs.violate(key, where, f'`{tm._src(c_.node.node)}.any_args({tm._src(a)})` searches the text of `{tm._src(a)}` INSIDE the joined decorator arguments: `@Embed.ignore(A_Ext)` also ignores the base class `A` (`class C(A, A_Ext)` is emitted as `class C {{`), so renaming a class changes which bases are emitted', tm._src(a))
+	if not n_calls:
+		rs.skip('any_args-calls', (tm.relpath('class/class'), 1), 'no template calls any_args any more')
+	rep.extra_coverage['template_substitution_sites'] = sites
